@@ -120,7 +120,18 @@ func newLiveEnv() *liveEnv {
 		o.Started = true
 		o.mu.Unlock()
 		defer close(o.returned)
-		if err := s.Send(bigMsg(1024)); err != nil {
+		big := bigMsg(1024)
+		if s.RequestHeader().Get("X-Incompressible") != "" {
+			// bytes gzip cannot shrink: the envelope itself is beyond the peer's limit
+			x := uint32(2463534242)
+			for i := range big.B {
+				x ^= x << 13
+				x ^= x >> 17
+				x ^= x << 5
+				big.B[i] = byte(x >> 11)
+			}
+		}
+		if err := s.Send(big); err != nil {
 			return err
 		}
 		deadline := time.After(handlerCtxWait)
@@ -1130,7 +1141,8 @@ func liveFamily(r *h.Run, rng *h.Rng, fam string, cancelMode bool) {
 		}
 		setDelays(nil)
 		for _, proto := range protos {
-			e.liveLocalFailure(r, fam, proto)
+			e.liveLocalFailure(r, fam, proto, true)
+			e.liveLocalFailure(r, fam, proto, false)
 		}
 		for _, proto := range protos {
 			e.liveRejected(r, fam, "bidi", proto, true)
@@ -1351,18 +1363,29 @@ func (e *liveEnv) liveUnaryStall(r *h.Run, fam, proto string, h2, deadline bool)
 // its read limit) while the handler — which terminates once the client closes its request side
 // — is still waiting: the program Send, Receive, CloseRequest, CloseResponse must run to its
 // end, every call returning in bounded time.
-func (e *liveEnv) liveLocalFailure(r *h.Run, fam, proto string) {
+func (e *liveEnv) liveLocalFailure(r *h.Run, fam, proto string, compressed bool) {
 	c := &liveCall{r: r, mode: "C14", fam: fam, kind: "bidi", proto: proto, h2: true, prog: hprog{}}
 	c.id = fmt.Sprint(e.seq.Add(1))
 	c.obs = e.get(c.id)
 	c.cc = &countingClient{inner: e.srv2.Client()}
-	client := connect.NewClient[h.Raw, h.Raw](c.cc, e.srv2.URL+"/verif.Svc/BigThenDrain", append(liveClientOpts(proto), connect.WithReadMaxBytes(256))...)
-	c.log = append(c.log, "[the client limits messages to 256 bytes; the handler sends 1 KiB and then reads the request to its end]")
-	r.Eval(fam, fmt.Sprintf("local-failure/%s", proto))
+	opts := append(liveClientOpts(proto), connect.WithReadMaxBytes(256))
+	if compressed {
+		// (the handler compresses its responses when the client accepts gzip, which it does by
+		// default: the 1 KiB message arrives in an envelope smaller than the limit and is refused
+		// when it has been inflated)
+		c.log = append(c.log, "[the client limits messages to 256 bytes; the handler sends 1 KiB (gzip: the envelope is within the limit, the message is not) and then reads the request to its end]")
+	} else {
+		c.log = append(c.log, "[the client limits messages to 256 bytes; the handler sends 1 KiB that gzip cannot shrink (the envelope itself is beyond the limit) and then reads the request to its end]")
+	}
+	client := connect.NewClient[h.Raw, h.Raw](c.cc, e.srv2.URL+"/verif.Svc/BigThenDrain", opts...)
+	r.Eval(fam, fmt.Sprintf("local-failure/%s/%v", proto, compressed))
 	ctx, cancel := context.WithCancel(context.Background())
 	defer cancel()
 	st := client.CallBidiStream(ctx)
 	st.RequestHeader().Set("X-Call", c.id)
+	if !compressed {
+		st.RequestHeader().Set("X-Incompressible", "1")
+	}
 	c.step("Send", func() error { return st.Send(bigMsg(16)) })
 	start := time.Now()
 	done := make(chan error, 1)
